@@ -135,7 +135,12 @@ impl<'a, C: Crypto> CaseResponder<'a, C> {
             return Ok(());
         }
 
-        self.handle_casesigma1(&mut exchange, &mut session).await?;
+        if !self.handle_casesigma1(&mut exchange, &mut session).await? {
+            // Sigma1 was rejected with a status report: the handshake is over. Waiting for a
+            // Sigma3 that will never come would tie up this handler and the reserved session
+            // slot for a whole receive timeout.
+            return Ok(());
+        }
 
         exchange.recv_fetch().await?;
 
@@ -157,7 +162,7 @@ impl<'a, C: Crypto> CaseResponder<'a, C> {
         &mut self,
         exchange: &mut Exchange<'_>,
         session: &mut ReservedSession<'_>,
-    ) -> Result<(), Error> {
+    ) -> Result<bool, Error> {
         check_opcode(exchange, OpCode::CASESigma1)?;
 
         let req = Sigma1Req::from_tlv(&get_root_node_struct(exchange.rx()?.payload())?)?;
@@ -170,7 +175,7 @@ impl<'a, C: Crypto> CaseResponder<'a, C> {
             error!("Sigma1 has mismatched resumptionID/initiatorResumeMIC presence; rejecting");
             complete_with_status(exchange, SCStatusCodes::InvalidParameter, &[]).await?;
 
-            return Ok(());
+            return Ok(false);
         }
 
         let local_fabric_idx = exchange.with_state(|state| {
@@ -184,7 +189,7 @@ impl<'a, C: Crypto> CaseResponder<'a, C> {
             error!("Fabric Index mismatch");
             complete_with_status(exchange, SCStatusCodes::NoSharedTrustRoots, &[]).await?;
 
-            return Ok(());
+            return Ok(false);
         }
 
         let local_sessid = exchange.with_state(|state| Ok(state.sessions.get_next_sess_id()))?;
@@ -300,7 +305,9 @@ impl<'a, C: Crypto> CaseResponder<'a, C> {
                     Ok(Some(OpCode::CASESigma2.into()))
                 })
             })
-            .await
+            .await?;
+
+        Ok(true)
     }
 
     /// Handle the CASE Sigma3 message
